@@ -3,7 +3,7 @@ current source and rewrite lean/ErrModel/Generated/*.lean (old file removed firs
 the content is only rewritten when it changed so that lake stays incremental)."""
 import json, os, subprocess
 
-GEN = {"C16": ["depth"], "C10": ["ctors"], "C05": ["decoders"], "C18": ["effects"]}
+GEN = {"C16": ["depth"], "C10": ["ctors"], "C05": ["decoders"], "C18": ["effects"], "C07": ["unwrap"], "C14": ["unwrap"]}
 
 def _write_if_changed(path, content):
     old = None
@@ -82,6 +82,30 @@ def gen_effects(root, facts):
     _write_if_changed(os.path.join(root, "lean", "ErrModel", "Generated", "EffectsFacts.lean"), "\n".join(lines))
     return {"error_types": len(et), "functions": facts.get("functions", 0), "recv_mutations": rm, "global_writes": len(gw), "sync_fields": sf}
 
+def gen_unwrap(root, facts):
+    ms = facts.get("methods") or []
+    hf = facts.get("hidden_fields") or []
+    lines = ["import ErrModel.Basic.Bytes",
+             "/- GENERATED on every run by tools/extractors.py from /repo's source (go/extract unwrap). Do not edit. -/",
+             "namespace ErrModel.Unwrap", "",
+             "structure M where",
+             "  pkg : Str",
+             "  type : Str",
+             "  method : Str",
+             "  field : Str        -- the receiver field returned; begins with '?' when the body is not `return recv.field`",
+             "  hidden : Bool      -- that field is one the package ships as an EncodeError payload (not a cause)",
+             "  deriving Repr, DecidableEq", "",
+             "/-- (package, field): fields passed to EncodeError by some function of the package -/",
+             "def hiddenFields : List (Str × Str) := [" + ", ".join("(%s, %s)" % (lean_str(a), lean_str(b)) for a, b in hf) + "]", "",
+             "/-- every Cause / Unwrap method of a struct type that has an error-typed field -/",
+             "def methods : List M := ["]
+    lines.append(",\n".join("  ⟨%s, %s, %s, %s, %s⟩" % (lean_str(m["pkg"]), lean_str(m["type"]), lean_str(m["method"]), lean_str(m["field"]),
+                                                       "true" if m["hidden"] else "false") for m in ms))
+    lines += ["]", "", "def typesWithErrorFields : Nat := %d" % facts.get("types", 0), "", "end ErrModel.Unwrap", ""]
+    _write_if_changed(os.path.join(root, "lean", "ErrModel", "Generated", "UnwrapFacts.lean"), "\n".join(lines))
+    return {"methods": len(ms), "hidden_fields": hf, "types": facts.get("types", 0),
+            "exposed": [m for m in ms if m["hidden"]], "unrecognised": [m for m in ms if m["field"].startswith("?")]}
+
 def run(root, pid, work, env):
     if pid not in GEN:
         return None
@@ -99,6 +123,8 @@ def run(root, pid, work, env):
                 summary[what] = gen_depth(root, facts)
             elif what == "effects":
                 summary[what] = gen_effects(root, facts)
+            elif what == "unwrap":
+                summary[what] = gen_unwrap(root, facts)
             elif what == "ctors":
                 import extract_ctors
                 summary[what] = extract_ctors.gen(root, facts, _write_if_changed)
